@@ -241,7 +241,7 @@ func genProbes(r *rand.Rand) c09Input {
 		n := names[r.IntN(2)]
 		switch r.IntN(5) {
 		case 0, 1, 2:
-			in.Setup = append(in.Setup, DBStep{Kind: "put", Name: n, Val: 1 + r.IntN(6)})
+			in.Setup = append(in.Setup, DBStep{Kind: "put", Name: n, Val: []int{1, 2, 3, 4, 5, 6, 13, 14, 15}[r.IntN(9)]})
 			nver[string(n)]++
 		case 3:
 			in.Setup = append(in.Setup, DBStep{Kind: "activate", Name: n, Ver: uint32(1 + r.IntN(nver[string(n)]+1))})
